@@ -79,6 +79,9 @@ class Optimizer(Identifiable, Runnable):
             if handler.stop:
                 break
             self.optimizer.step(closure)
+            # LBFGS updates the tensors in place after its last closure call
+            for p in self.parameters:
+                p.fire_parameter_changed()
             state = self.optimizer.state_dict()['state'][0]
 
             with torch.no_grad():
